@@ -162,6 +162,14 @@ def families(tier):
         ('member_of-unknown-agg', A, F(mem=[[3]])),
         ('member_of-in-unknown-agg', A, F(mem=[[1, 3]])),
         ('member_of-pos+neg', A, F(mem=[[1]], fmem=[2])),
+        ('member_of-known+unknown', A, F(mem=[[1], [9]])),
+        ('member_of-unknown+known', A, F(mem=[[9], [1]])),
+        ('member_of-known+in-unknown', A, F(mem=[[1], [9, 8]])),
+        ('member_of-in-mixed+unknown', A, F(mem=[[1, 9], [9]])),
+        ('member_of-unknown+neg', A, F(mem=[[9]], fmem=[1])),
+        ('member_of-three', A, F(mem=[[1], [2], [1, 2]])),
+        ('member_of-known+memberless', A, F(mem=[[1], [3]])),
+        ('member_of-never-used', A, F(mem=[[9]])),
         ('required', T, F(req=[[T1]])),
         ('required-and', T, F(req=[[T1], [T2]])),
         ('required-in', T, F(req=[[T1, T2]])),
